@@ -460,6 +460,11 @@ func c11History(k *fw.K, quick bool) {
 				} else if uerr != nil && *wp.Value != before {
 					k.Failf("step %d: Update returned an error but replaced weight %d", step, wi)
 					return
+				} else if uerr == nil {
+					// this step's forward pass used a spent parameter (weight `omitted`), so its loss was computed from a spent tensor: it is
+					// untracked, its back-propagation changes nothing, and this re-armed weight cannot hold a gradient to step with
+					k.Failf("step %d: ResetGradContext was omitted on weight %d after the previous step, yet weight %d was given a gradient and updated: the loss of a forward pass over a spent parameter cannot be tracked", step, omitted, wi)
+					return
 				}
 				continue
 			}
